@@ -1,14 +1,32 @@
-"""Host-side DFU protocol rules over the paths of dfu.cli_main and the request helpers (C18, C19)."""
+"""Host-side DFU protocol rules over the paths of dfu.cli_main (C18, C19).
+
+cli_main is walked with every module-level helper and local closure inlined (pathwalk inline='all'), so the protocol events are the
+device.ctrl_transfer(...) calls themselves, classified by their folded arguments - however the code is factored into helpers and
+whatever its variables are called.  The quantities the rules talk about are *derived from the events*:
+
+  S      chunk size        = hi - lo of the slice sent by the data download
+  FW     flashed buffer    = the object that slice is taken from
+  N      page count        = argument of range() of the loops that enclose the erase / write requests
+  PAGE   page index        = loop variable of that loop
+  LEN    raw image length  = len() of the value read from the file (the `res` leaf of FW)
+  CAP    flash capacity    = LEN - g for the size guard  g > 0 -> refuse
+"""
 import ast
 
 from .core import AnalysisError, Finding
 from .astutil import unparse, dotted, fold, NotConstant
 from .pathwalk import Walker, PathState, show, is_const, C
-from .poly import Poly, to_poly, normalise_gt
+from .poly import Poly
 from . import oracle
 from .immsites import contains, find_all
 
 DFU = 'bronzebeard/dfu.py'
+PAGE = ('PAGE',)
+LEN = ('LEN',)
+
+
+class Undecided(AnalysisError):
+    pass
 
 
 def strip(v):
@@ -17,160 +35,626 @@ def strip(v):
     return v
 
 
-class Helpers:
-    """Request helpers classified by what they send."""
+def fold_sym(v, consts):
+    """Integer / bytes / str value of a symbolic expression over module constants, or None."""
+    v = strip(v)
+    if is_const(v):
+        return v[1]
+    if v[0] == 'name':
+        return consts.get(v[1])
+    if v[0] == 'bin':
+        a, b = fold_sym(v[2], consts), fold_sym(v[3], consts)
+        if isinstance(a, int) and isinstance(b, int):
+            try:
+                return {'|': a | b, '&': a & b, '+': a + b, '-': a - b, '*': a * b, '<<': a << b, '>>': a >> b, '^': a ^ b}[v[1]]
+            except (KeyError, ValueError):
+                return None
+    if v[0] in ('tuple', 'list'):
+        vals = [fold_sym(e, consts) for e in v[1]]
+        return None if any(e is None for e in vals) else vals
+    return None
 
-    def __init__(self, facts):
-        self.facts = facts
-        self.kind = {}       # function name -> 'POLL' | 'CLR' | 'ERASE' | 'SETADDR' | 'DATA' | 'DNLOAD?'
-        self.calls = {}      # function name -> ctrl_transfer Call node
-        self.detail = {}
-        for name, fn in facts.funcs.items():
-            for n in ast.walk(fn):
-                if isinstance(n, ast.Call) and isinstance(n.func, ast.Attribute) and n.func.attr == 'ctrl_transfer':
-                    self.calls[name] = n
-                    self.classify(name, fn, n)
 
-    def arg(self, call, idx, kw):
-        if idx < len(call.args):
-            return call.args[idx]
-        for k in call.keywords:
-            if k.arg == kw:
-                return k.value
-        return None
+PYUSB_PARAMS = ['bmRequestType', 'bRequest', 'wValue', 'wIndex', 'data_or_wLength', 'timeout']
+DNLOAD_KINDS = ('ERASE', 'SETADDR', 'DATA')
 
-    def classify(self, name, fn, call):
-        consts = self.facts.consts
-        req = self.arg(call, 1, 'bRequest')
-        rt = self.arg(call, 0, 'bmRequestType')
-        wvalue = self.arg(call, 2, 'wValue')
-        data = self.arg(call, 4, 'data_or_wLength')
-        d = {'request_name': unparse(req) if req is not None else None}
-        try:
-            d['request'] = fold(req, consts)
-        except (NotConstant, TypeError):
-            d['request'] = None
-        try:
-            d['bmRequestType'] = fold(rt, consts)
-        except (NotConstant, TypeError):
-            d['bmRequestType'] = None
-        try:
-            d['wValue'] = fold(wvalue, consts) if wvalue is not None else 0
-        except NotConstant:
-            d['wValue'] = None
-        try:
-            d['data_const'] = fold(data, consts) if data is not None else None
-        except NotConstant:
-            d['data_const'] = None
-        d['data'] = unparse(data) if data is not None else None
-        # payload built by struct.pack(fmt, CMD, address)?
-        d['pack'] = None
-        if isinstance(data, ast.Name):
-            for n in ast.walk(fn):
-                if isinstance(n, ast.Assign) and isinstance(n.targets[0], ast.Name) and n.targets[0].id == data.id \
-                        and isinstance(n.value, ast.Call) and dotted(n.value.func) == 'struct.pack':
-                    args = n.value.args
-                    try:
-                        d['pack'] = (fold(args[0], consts), unparse(args[1]), fold(args[1], consts), [unparse(a) for a in args[2:]])
-                    except (NotConstant, IndexError):
-                        d['pack'] = ('?', None, None, [])
-        self.detail[name] = d
+
+class Request:
+    """One ctrl_transfer call on a path."""
+
+    def __init__(self, idx, node, site, recv, params, raw, consts):
+        self.idx, self.node, self.site, self.recv, self.params, self.raw = idx, node, site, recv, params, raw
+        self.uid = raw[4] if raw[0] == 'res' and len(raw) > 4 else None
+        self.bmRequestType = fold_sym(params['bmRequestType'], consts) if 'bmRequestType' in params else None
+        self.request = fold_sym(params['bRequest'], consts) if 'bRequest' in params else None
+        self.wValue = fold_sym(params['wValue'], consts) if 'wValue' in params else 0
+        self.data = params.get('data_or_wLength')
+        self.kind = 'OTHER'
+        self.addr = None
+        self.payload = None
+        self.pack = None
         R = oracle.DFU['requests']
-        if d['request'] == R['REQUEST_DFU_GETSTATUS']:
-            self.kind[name] = 'POLL'
-        elif d['request'] == R['REQUEST_DFU_CLRSTATUS']:
-            self.kind[name] = 'CLR'
-        elif d['request'] == R['REQUEST_DFU_DNLOAD']:
-            if d['pack'] is not None:
-                cmd = d['pack'][2]
+        if self.request == R['REQUEST_DFU_GETSTATUS']:
+            self.kind = 'POLL'
+        elif self.request == R['REQUEST_DFU_CLRSTATUS']:
+            self.kind = 'CLR'
+        elif self.request == R['REQUEST_DFU_DNLOAD']:
+            d = strip(self.data) if self.data is not None else None
+            if d is not None and d[0] == 'call' and d[1] == 'struct.pack' and len(d[2]) >= 2:
+                fmt = fold_sym(d[2][0], consts)
+                cmd = fold_sym(d[2][1], consts)
+                self.pack = (fmt, cmd, d[2][2:])
+                self.addr = d[2][2] if len(d[2]) > 2 else None
                 if cmd == oracle.DFU['dfuse']['DFUSE_CMD_ERASE_PAGE']:
-                    self.kind[name] = 'ERASE'
+                    self.kind = 'ERASE'
                 elif cmd == oracle.DFU['dfuse']['DFUSE_CMD_SET_ADDRESS']:
-                    self.kind[name] = 'SETADDR'
+                    self.kind = 'SETADDR'
                 else:
-                    self.kind[name] = 'DNLOAD?'
+                    self.kind = 'DNLOAD?'
             else:
-                self.kind[name] = 'DATA'
-        else:
-            self.kind[name] = 'OTHER'
+                self.kind = 'DATA'
+                self.payload = self.data
+
+    @property
+    def line(self):
+        return getattr(self.site, 'lineno', getattr(self.node, 'lineno', None))
+
+
+def request_of(ev, idx, path, consts):
+    """Request for an event that is a ctrl_transfer call (statement or assigned), else None."""
+    if ev[0] == 'mcall' and ev[2] == 'ctrl_transfer':
+        recv, args, kwargs, node = ev[1], ev[3], ev[4], ev[5]
+        raw = ('mcall', recv, 'ctrl_transfer', args, kwargs)
+    elif ev[0] in ('value', 'expr'):
+        raw = ev[1]
+        v = strip(raw)
+        if not (isinstance(v, tuple) and v and v[0] == 'mcall' and v[2] == 'ctrl_transfer'):
+            return None
+        recv, args, kwargs, node = v[1], v[3], v[4], ev[2]
+    else:
+        return None
+    params = {}
+    for n, a in zip(PYUSB_PARAMS, args):
+        params[n] = a
+    for k, a in kwargs:
+        params[k] = a
+    return Request(idx, node, path.sites.get(idx, node), recv, params, raw, consts)
 
 
 def main_paths(facts):
     fn = facts.funcs.get('cli_main')
     if fn is None:
         raise AnalysisError('anchor vanished: dfu.cli_main')
-    w = Walker(facts, name_results=True)
-    return fn, w.run(fn.body, PathState())
+    w = Walker(facts, name_results=True, inline='all')
+    w.opaque = {'cli_main'}
+    paths = w.run(fn.body, PathState())
+    return fn, [p for p in paths if feasible(p)]
 
 
-def protocol_events(path, helpers):
-    """Ordered protocol-level events of a path: (kind, index in events, node, args)."""
+def feasible(p):
+    """Two loops over the structurally identical range(...) value run the same number of times: a path on which one ran zero
+    times and the other at least once does not exist."""
+    trips = {}
+    for ev in p.events:
+        if ev[0] in ('loop', 'loop0'):
+            it = strip(ev[1])
+            if it[0] == 'call' and it[1] == 'range':
+                got = ev[0] == 'loop'
+                if trips.setdefault(it, got) != got:
+                    return False
+    return True
+
+
+def protocol_events(path, consts):
+    """Ordered protocol-level events of a path: (kind, idx, node, payload)
+       REQ payload = Request ; COND payload = (test, pol) ; WHILE/ENDWHILE/ENDWHILE0 payload = test ; LOOP/LOOP0/ENDLOOP payload =
+       iterable ; RAISE payload = exception value ; EXIT payload = args ; SLEEP payload = arg.   node is the outermost call site
+       in cli_main when the event happened inside an inlined helper."""
+    cached = getattr(path, '_proto', None)
+    if cached is not None:
+        return cached
     out = []
     for i, ev in enumerate(path.events):
-        v = None
-        if ev[0] in ('value', 'expr'):
-            v = strip(ev[1])
-            node = ev[2]
-        if v is not None and v[0] == 'call' and v[1] in helpers.kind:
-            out.append((helpers.kind[v[1]], i, node, v[2], v[1], ev[1]))
-        elif ev[0] == 'cond':
-            out.append(('COND', i, ev[3], (ev[1], ev[2]), None, None))
+        r = request_of(ev, i, path, consts)
+        if r is not None:
+            out.append(('REQ', i, r.site, r))
+            continue
+        site = path.sites.get(i)
+        if ev[0] == 'cond':
+            out.append(('COND', i, site or ev[3], (ev[1], ev[2])))
         elif ev[0] in ('while', 'endwhile', 'endwhile0', 'loop', 'loop0', 'endloop'):
-            out.append((ev[0].upper(), i, ev[2], ev[1], None, None))
+            out.append((ev[0].upper(), i, ev[2], ev[1]))
         elif ev[0] == 'raise':
-            out.append(('RAISE', i, ev[2], ev[1], None, None))
-        elif ev[0] == 'expr' and v is not None and v[0] == 'call' and v[1] in ('sys.exit', 'exit', 'quit'):
-            out.append(('EXIT', i, node, v[2], None, None))
+            out.append(('RAISE', i, site or ev[2], ev[1]))
+        elif ev[0] == 'expr':
+            v = strip(ev[1])
+            if v[0] == 'call' and v[1] in ('sys.exit', 'exit', 'quit', 'os._exit'):
+                out.append(('EXIT', i, site or ev[2], v[2]))
+            elif v[0] == 'call' and v[1] in ('time.sleep', 'sleep'):
+                out.append(('SLEEP', i, site or ev[2], v[2][0] if v[2] else None))
+    path._proto = out
     return out
 
 
-def is_size_guard(test, rename):
-    """P > 0 polynomial of a test, if it compares integers."""
-    return normalise_gt(test, rename)
-
-
-def rename_cli(v):
-    """Canonical names for the quantities the formulas talk about."""
-    v0 = strip(v)
-    if isinstance(v, tuple) and v and v[0] == 'res':
-        return ('sym', v[1])
-    return v
-
-
-def status_vars(fn, helpers):
-    """Names bound to the first element of a POLL helper's result anywhere in the function."""
-    out = set()
-    for n in ast.walk(fn):
-        if isinstance(n, ast.Assign) and isinstance(n.value, ast.Call) and isinstance(n.value.func, ast.Name) \
-                and helpers.kind.get(n.value.func.id) == 'POLL' and isinstance(n.targets[0], ast.Tuple) and n.targets[0].elts \
-                and isinstance(n.targets[0].elts[0], ast.Name):
-            out.add(n.targets[0].elts[0].id)
-    return out
-
-
-def is_status_value(x, helpers, svars):
-    if x[0] == 'havoc' and x[1] in svars:
-        return True
-    if x[0] == 'unpack' and x[2] == '0':
-        src = strip(x[1])
-        return src[0] == 'call' and helpers.kind.get(src[1]) == 'POLL'
-    return False
-
-
-def status_test(test, consts, helpers=None, svars=()):
-    """('bad'|'ok', status symbol) if the test compares a polled status with STATUS_OK (by name, or by value when the other
-    side is a polled status)."""
-    if test[0] == 'un' and test[1] == 'not':
-        r = status_test(test[2], consts, helpers, svars)
-        if r:
-            return ('ok' if r[0] == 'bad' else 'bad', r[1])
+# -- the GETSTATUS reply --------------------------------------------------------------------------------------------------------
+def unpack_layout(fmt):
+    """[(byte offset, size, code)] per field of a struct format with explicit byte order, or None."""
+    if not isinstance(fmt, str) or not fmt or fmt[0] not in '<>=!':
         return None
+    out = []
+    off = 0
+    i = 1
+    while i < len(fmt):
+        n = ''
+        while i < len(fmt) and fmt[i].isdigit():
+            n += fmt[i]
+            i += 1
+        if i >= len(fmt):
+            return None
+        c = fmt[i]
+        i += 1
+        cnt = int(n) if n else 1
+        if c in 'sp':
+            out.append((off, cnt, 's'))
+            off += cnt
+        elif c == 'x':
+            off += cnt
+        elif c in oracle.STRUCT_SIZES:
+            for _ in range(cnt):
+                out.append((off, oracle.STRUCT_SIZES[c], c))
+                off += oracle.STRUCT_SIZES[c]
+        else:
+            return None
+    return out
+
+
+def _is_reply(v):
+    s = strip(v)
+    return isinstance(s, tuple) and s and s[0] == 'mcall' and s[2] == 'ctrl_transfer'
+
+
+def reply_bytes(v, consts):
+    """How an integer (or bytes) expression is made of the bytes of a GETSTATUS reply:
+         {'weights': {offset: weight}, 'reply': reply value}     an integer  sum(reply[offset] * weight)
+         {'bytes': (offset, size), 'reply': reply value}         the byte string reply[offset : offset+size]
+       None if it is anything else."""
+    v = strip(v)
+    if not isinstance(v, tuple) or not v:
+        return None
+    if v[0] == 'unpack':
+        src = strip(v[1])
+        if src[0] == 'call' and src[1] == 'struct.unpack' and len(src[2]) == 2:
+            fmt = fold_sym(src[2][0], consts)
+            lay = unpack_layout(fmt)
+            try:
+                k = int(v[2])
+            except ValueError:
+                return None
+            if lay is None or not (-len(lay) <= k < len(lay)):
+                return None
+            off, size, code = lay[k]
+            inner = reply_bytes(src[2][1], consts)
+            base = 0
+            reply = src[2][1]
+            if inner is not None and 'bytes' in inner:
+                base, reply = inner['bytes'][0], inner['reply']
+            elif not _is_reply(reply):
+                return None
+            if code == 's':
+                return {'bytes': (base + off, size), 'reply': reply}
+            w = {}
+            for b in range(size):
+                w[base + off + b] = (1 << (8 * b)) if fmt[0] in '<=' else (1 << (8 * (size - 1 - b)))
+            return {'weights': w, 'reply': reply}
+        if _is_reply(v[1]):
+            # tuple-unpacking the reply itself: status, t0, t1, t2, state, istring = reply
+            try:
+                k = int(v[2])
+            except ValueError:
+                return None
+            if k < 0:
+                k += oracle.DFU['getstatus_len']
+            return {'weights': {k: 1}, 'reply': v[1]}
+        return None
+    if v[0] == 'sub' and is_const(v[2]) and isinstance(v[2][1], int) and _is_reply(v[1]):
+        k = v[2][1]
+        return {'weights': {k if k >= 0 else k + oracle.DFU['getstatus_len']: 1}, 'reply': v[1]}
+    if v[0] == 'slice' and _is_reply(v[1]) and v[4] == C(None):
+        lo = 0 if v[2] == C(None) else fold_sym(v[2], consts)
+        hi = oracle.DFU['getstatus_len'] if v[3] == C(None) else fold_sym(v[3], consts)
+        if isinstance(lo, int) and isinstance(hi, int) and 0 <= lo <= hi:
+            return {'bytes': (lo, hi - lo), 'reply': v[1]}
+        return None
+    if v[0] == 'call' and v[1] in ('bytes', 'bytearray', 'memoryview') and len(v[2]) == 1:
+        inner = reply_bytes(v[2][0], consts)
+        if inner is not None and 'bytes' in inner:
+            return inner
+        if _is_reply(v[2][0]):
+            return {'bytes': (0, oracle.DFU['getstatus_len']), 'reply': v[2][0]}
+        return None
+    if v[0] == 'mcall' and v[1] == ('name', 'int') and v[2] == 'from_bytes' and v[3]:
+        inner = reply_bytes(v[3][0], consts)
+        order = v[3][1] if len(v[3]) > 1 else dict(v[4]).get('byteorder')
+        order = fold_sym(order, consts) if order is not None else 'big'
+        if inner is None or 'bytes' not in inner or order not in ('little', 'big') or dict(v[4]).get('signed', C(False)) != C(False):
+            return None
+        off, size = inner['bytes']
+        w = {}
+        for b in range(size):
+            w[off + b] = (1 << (8 * b)) if order == 'little' else (1 << (8 * (size - 1 - b)))
+        return {'weights': w, 'reply': inner['reply']}
+    if v[0] == 'bin' and v[1] in ('|', '+'):
+        a, b = reply_bytes(v[2], consts), reply_bytes(v[3], consts)
+        if a is None or b is None or 'weights' not in a or 'weights' not in b or set(a['weights']) & set(b['weights']) \
+                or a['reply'] != b['reply']:
+            return None
+        w = dict(a['weights'])
+        w.update(b['weights'])
+        return {'weights': w, 'reply': a['reply']}
+    if v[0] == 'bin' and v[1] in ('<<', '*'):
+        for x, y in ((v[2], v[3]), (v[3], v[2])):
+            k = fold_sym(y, consts)
+            a = reply_bytes(x, consts)
+            if isinstance(k, int) and a is not None and 'weights' in a and (v[1] == '*' or x is v[2]):
+                k = (1 << k) if v[1] == '<<' else k
+                return {'weights': {o: w * k for o, w in a['weights'].items()}, 'reply': a['reply']}
+        return None
+    return None
+
+
+def reply_uid(reply):
+    return reply[4] if isinstance(reply, tuple) and reply and reply[0] == 'res' and len(reply) > 4 else None
+
+
+def reply_terms(v, consts, out=None):
+    """All maximal sub-terms of v that are integer functions of a GETSTATUS reply: [(term, weights, reply uid)]."""
+    out = [] if out is None else out
+    if not isinstance(v, tuple) or not v:
+        return out
+    rb = reply_bytes(v, consts)
+    if rb is not None and 'weights' in rb:
+        out.append((v, rb['weights'], reply_uid(rb['reply'])))
+        return out
+    for x in v[1:] if v[0] != 'res' else (v[3],):
+        if isinstance(x, tuple):
+            if x and isinstance(x[0], str):
+                reply_terms(x, consts, out)
+            else:
+                for y in x:
+                    if isinstance(y, tuple):
+                        if y and isinstance(y[0], str):
+                            reply_terms(y, consts, out)
+                        else:
+                            for z in y:
+                                reply_terms(z, consts, out)
+    return out
+
+
+def eval_sym_test(test, subst, consts):
+    """Truth of a symbolic test with the values in `subst` ({term: int}) plugged in; None if it cannot be evaluated."""
+    if test in subst:
+        return bool(subst[test])
+    if is_const(test):
+        return bool(test[1])
+    k = test[0]
+    if k == 'res':
+        return eval_sym_test(test[3], subst, consts)
+    if k == 'un' and test[1] == 'not':
+        r = eval_sym_test(test[2], subst, consts)
+        return None if r is None else not r
+    if k == 'bool':
+        vals = [eval_sym_test(t, subst, consts) for t in test[2]]
+        if test[1] == 'and':
+            if any(v is False for v in vals):
+                return False
+            return None if any(v is None for v in vals) else True
+        if any(v is True for v in vals):
+            return True
+        return None if any(v is None for v in vals) else False
+    if k == 'ifexp':
+        c = eval_sym_test(test[1], subst, consts)
+        return None if c is None else eval_sym_test(test[2] if c else test[3], subst, consts)
+    if k == 'cmp':
+        def val(x):
+            if x in subst:
+                return subst[x]
+            sx = strip(x)
+            if sx in subst:
+                return subst[sx]
+            if sx[0] in ('list', 'tuple', 'set'):
+                vs = [val(e) for e in sx[1]]
+                return None if any(e is None for e in vs) else vs
+            return fold_sym(sx, consts)
+        a, b = val(test[2]), val(test[3])
+        if a is None or b is None:
+            return None
+        try:
+            return {'==': lambda: a == b, '!=': lambda: a != b, '<': lambda: a < b, '<=': lambda: a <= b, '>': lambda: a > b,
+                    '>=': lambda: a >= b, 'in': lambda: a in b, 'not in': lambda: a not in b, 'is': lambda: a == b,
+                    'is not': lambda: a != b}[test[1]]()
+        except (TypeError, KeyError):
+            return None
+    return None
+
+
+def status_test(test, consts):
+    """('bad'|'ok', tested value, weights or None, reply uid) if the test compares something with STATUS_OK: by name, or by value
+    when the other side is byte 0 of a GETSTATUS reply."""
+    if test[0] == 'un' and test[1] == 'not':
+        r = status_test(test[2], consts)
+        if r:
+            return ('ok' if r[0] == 'bad' else 'bad',) + r[1:]
+        return None
+    if test[0] == 'res':
+        return status_test(test[3], consts)
     if test[0] != 'cmp' or test[1] not in ('!=', '==', 'is not', 'is'):
+        # bare truthiness of the status byte: `if status:` is `status != 0`
+        rb = reply_bytes(test, consts)
+        if rb is not None and rb.get('weights') == {0: 1} and consts.get('STATUS_OK') == 0:
+            return ('bad', test, rb['weights'], reply_uid(rb['reply']))
         return None
     a, b = test[2], test[3]
     ok_val = consts.get('STATUS_OK')
     for x, y in ((a, b), (b, a)):
-        if y == ('name', 'STATUS_OK') or (is_const(y) and ok_val is not None and y[1] == ok_val and not is_const(x)
-                                          and helpers is not None and is_status_value(x, helpers, svars)):
-            return ('bad' if test[1] in ('!=', 'is not') else 'ok', x)
+        named = y == ('name', 'STATUS_OK')
+        rb = reply_bytes(x, consts)
+        w = rb.get('weights') if rb else None
+        valued = is_const(y) and ok_val is not None and y[1] == ok_val and not isinstance(y[1], bool) and w == {0: 1}
+        if named or valued:
+            return ('bad' if test[1] in ('!=', 'is not') else 'ok', x, w, reply_uid(rb['reply']) if rb else None)
+    return None
+
+
+# -- polynomials over the derived quantities ----------------------------------------------------------------------------------------
+def buffer_leaf(v):
+    """The value read from the file that a buffer expression extends (its `res` leaf), or None."""
+    if v[0] == 'res':
+        return v
+    if v[0] == 'accum':
+        return buffer_leaf(v[1])
+    if v[0] == 'bin' and v[1] == '+':
+        return buffer_leaf(v[2]) or buffer_leaf(v[3])
+    if v[0] == 'call' and v[1] in ('bytes', 'bytearray') and len(v[2]) == 1 and isinstance(v[2][0], tuple):
+        return buffer_leaf(v[2][0])
+    if v[0] == 'mcall' and v[2] in ('ljust',) and v[3]:
+        return buffer_leaf(v[1])
+    return None
+
+
+class Sym:
+    """Polynomial view of the symbolic values of one path."""
+
+    def __init__(self, consts, page_vars=(), raw=None):
+        self.consts = consts
+        self.page_vars = set(page_vars)     # havoc symbols standing for the page index
+        self.raw = raw                      # the `res` value read from the file: len(raw) is LEN
+
+    def length(self, v):
+        """len(v) of a bytes expression."""
+        if self.raw is not None and v == self.raw:
+            return Poly.sym(LEN)
+        if v[0] == 'res':
+            return Poly.sym(('len', v))
+        if is_const(v) and isinstance(v[1], (bytes, str)):
+            return Poly.const(len(v[1]))
+        if v[0] == 'accum':
+            init, it, elem, meth = v[1], strip(v[2]), v[3], v[4]
+            if it[0] == 'call' and it[1] == 'range' and len(it[2]) == 1:
+                return self.length(init) + self.poly(it[2][0]) * self.length(elem)
+            raise Undecided('padding loop does not run over range(n): {}'.format(show(it)[:60]))
+        if v[0] == 'bin' and v[1] == '+':
+            return self.length(v[2]) + self.length(v[3])
+        if v[0] == 'bin' and v[1] == '*':
+            for a, b in ((v[2], v[3]), (v[3], v[2])):
+                if is_const(a) and isinstance(a[1], (bytes, str)):
+                    return self.poly(b) * Poly.const(len(a[1]))
+        if v[0] == 'call' and v[1] in ('bytes', 'bytearray') and len(v[2]) == 1:
+            a = v[2][0]
+            if buffer_leaf(a) is not None or (is_const(a) and isinstance(a[1], bytes)):
+                return self.length(a)
+            return self.poly(a)               # bytes(n): n zero bytes
+        raise Undecided('buffer expression outside the padding fragment: {}'.format(show(v)[:80]))
+
+    def zero_extension(self, v):
+        """True if v is its leaf extended only by zero bytes at the end."""
+        if v[0] == 'res':
+            return True
+        if is_const(v) and isinstance(v[1], bytes):
+            return set(v[1]) <= {0}
+        if v[0] == 'accum':
+            return self.zero_extension(v[1]) and self.zeros(v[3])
+        if v[0] == 'bin' and v[1] == '+':
+            return self.zero_extension(v[2]) and self.zeros(v[3])
+        if v[0] == 'call' and v[1] in ('bytes', 'bytearray') and len(v[2]) == 1 and buffer_leaf(v[2][0]) is not None:
+            return self.zero_extension(v[2][0])
+        return False
+
+    def zeros(self, v):
+        if is_const(v) and isinstance(v[1], bytes):
+            return set(v[1]) <= {0}
+        if v[0] == 'bin' and v[1] == '*':
+            return any(is_const(a) and isinstance(a[1], bytes) and set(a[1]) <= {0} for a in (v[2], v[3]))
+        if v[0] == 'bin' and v[1] == '+':
+            return self.zeros(v[2]) and self.zeros(v[3])
+        if v[0] == 'call' and v[1] in ('bytes', 'bytearray') and len(v[2]) == 1:
+            a = v[2][0]
+            return not (buffer_leaf(a) is not None) and (not is_const(a) or isinstance(a[1], int))
+        if v[0] == 'accum':
+            return self.zeros(v[1]) and self.zeros(v[3])
+        return False
+
+    def poly(self, v):
+        if v in self.page_vars:
+            return Poly.sym(PAGE)
+        if is_const(v):
+            if isinstance(v[1], int) and not isinstance(v[1], bool):
+                return Poly.const(v[1])
+            return Poly.sym(v)
+        if v[0] == 'res':
+            inner = strip(v)
+            if is_const(inner) or inner[0] in ('bin', 'name') or (inner[0] == 'call' and inner[1] == 'len'):
+                return self.poly(inner)
+            return Poly.sym(v)
+        if v[0] == 'name':
+            c = self.consts.get(v[1])
+            if isinstance(c, int) and not isinstance(c, bool):
+                return Poly.const(c)
+            return Poly.sym(v)
+        if v[0] == 'bin' and v[1] in ('+', '-', '*'):
+            a, b = self.poly(v[2]), self.poly(v[3])
+            return a + b if v[1] == '+' else (a - b if v[1] == '-' else a * b)
+        if v[0] == 'bin' and v[1] == '<<':
+            k = fold_sym(v[3], self.consts)
+            if isinstance(k, int) and 0 <= k < 64:
+                return self.poly(v[2]) * Poly.const(1 << k)
+        if v[0] == 'un' and v[1] == '-':
+            return -self.poly(v[2])
+        if v[0] == 'call' and v[1] == 'len' and len(v[2]) == 1:
+            try:
+                return self.length(v[2][0])
+            except Undecided:
+                return Poly.sym(v)
+        if v[0] == 'call' and v[1] == 'int' and len(v[2]) == 1 and not v[3]:
+            return self.poly(v[2][0])
+        return Poly.sym(v)
+
+    def gt(self, test):
+        """A comparison between integer expressions as P > 0; Poly or None."""
+        if test[0] == 'res':
+            return self.gt(test[3])
+        if test[0] == 'un' and test[1] == 'not':
+            inner = strip(test[2])
+            if inner[0] == 'cmp' and inner[1] in ('<', '<=', '>', '>='):
+                neg = {'<': '>=', '<=': '>', '>': '<=', '>=': '<'}[inner[1]]
+                return self.gt(('cmp', neg, inner[2], inner[3]))
+            return None
+        if test[0] != 'cmp' or test[1] not in ('<', '<=', '>', '>='):
+            return None
+        a, b = self.poly(test[2]), self.poly(test[3])
+        return {'>': a - b, '>=': a - b + Poly.const(1), '<': b - a, '<=': b - a + Poly.const(1)}[test[1]]
+
+
+def split_by(poly, sym):
+    """poly = A + sym*B (+ higher): returns (A, B, has_higher)."""
+    a, b, high = {}, {}, False
+    for k, c in poly.terms.items():
+        n = sum(1 for s in k if s == sym)
+        if n == 0:
+            a[k] = c
+        elif n == 1:
+            kk = list(k)
+            kk.remove(sym)
+            b[tuple(kk)] = c
+        else:
+            high = True
+    return Poly(a), Poly(b), high
+
+
+def mentions(poly, sym):
+    return any(sym in k for k in poly.terms)
+
+
+def divide(r, s):
+    """q with q*s == r for a polynomial r and a constant or single-monomial s; None if s does not divide r that way."""
+    if len(s.terms) != 1:
+        return None
+    (mono, c), = s.terms.items()
+    out = {}
+    for k, v in r.terms.items():
+        kk = list(k)
+        for sym in mono:
+            if sym not in kk:
+                return None
+            kk.remove(sym)
+        if v % c:
+            return None
+        out[tuple(kk)] = v // c
+    return Poly(out)
+
+
+class PathModel:
+    """Everything the rules need to know about one path of cli_main."""
+
+    def __init__(self, path, consts):
+        self.p = path
+        self.consts = consts
+        self.evs = protocol_events(path, consts)
+        self.reqs = [e[3] for e in self.evs if e[0] == 'REQ']
+        # enclosing for-loops of every request
+        self.loops_of = {}
+        self.loop_end = {}
+        stack = []
+        for kind, idx, node, payload in self.evs:
+            if kind == 'LOOP':
+                stack.append((idx, node, payload))
+            elif kind == 'ENDLOOP':
+                for j in range(len(stack) - 1, -1, -1):
+                    if stack[j][1] is node:
+                        self.loop_end[stack[j][0]] = idx
+                        del stack[j:]
+                        break
+            elif kind == 'REQ':
+                self.loops_of[payload.idx] = list(stack)
+        self.sends = [r for r in self.reqs if r.kind in DNLOAD_KINDS or r.kind in ('CLR', 'DNLOAD?')]
+
+    def page_loop(self, req):
+        """(LOOP event idx, For node, iterable, page havoc symbol) of the innermost enclosing `for PAGE in range(N)` loop."""
+        for idx, node, it in reversed(self.loops_of.get(req.idx, [])):
+            its = strip(it)
+            if its[0] == 'call' and its[1] == 'range' and isinstance(node.target, ast.Name):
+                return idx, node, its, ('havoc', node.target.id, 'loop@{}'.format(node.lineno))
+        return None
+
+    def sym_for(self, req, raw=None):
+        pl = self.page_loop(req)
+        return Sym(self.consts, [pl[3]] if pl else [], raw)
+
+    # the data download fixes S, FW and the raw image
+    def data_shape(self, req):
+        """(FW, lo poly, hi poly, S poly, raw) for a DATA request, or a string saying why the payload is not a slice."""
+        code = strip(req.payload)
+        while code[0] == 'call' and code[1] in ('bytes', 'bytearray', 'memoryview') and len(code[2]) == 1:
+            code = strip(code[2][0])
+        if code[0] != 'slice':
+            return 'the payload {} is not a slice of the firmware buffer'.format(show(code)[:60])
+        if code[4] != C(None):
+            return 'the slice has a step'
+        fw = code[1]
+        raw = buffer_leaf(fw if fw[0] != 'res' else fw)
+        sym = self.sym_for(req, raw)
+        lo = sym.poly(code[2]) if code[2] != C(None) else Poly.const(0)
+        if code[3] == C(None):
+            return 'the slice has no upper bound'
+        hi = sym.poly(code[3])
+        return fw, lo, hi, hi - lo, raw
+
+    def capacity(self, sym, before_idx):
+        """[(COND idx, node, pol, CAP poly)] for the size guards (comparisons involving LEN) before event index `before_idx`."""
+        out = []
+        for kind, idx, node, payload in self.evs:
+            if kind == 'COND' and idx < before_idx:
+                g = sym.gt(payload[0])
+                if g is not None and mentions(g, LEN):
+                    out.append((idx, node, payload[1], g))
+        return out
+
+    def gd32_letter(self):
+        """Serial-number letter this path is specialised to by an `sn[2] == 'X'` test, or None."""
+        for t, pol, node in self.p.conds:
+            t = strip(t)
+            if pol and t[0] == 'cmp' and t[1] == '==':
+                for x, y in ((t[2], t[3]), (t[3], t[2])):
+                    sx = strip(x)
+                    if is_const(y) and isinstance(y[1], str) and len(y[1]) == 1 and sx[0] == 'sub' and sx[2] == C(2):
+                        return y[1], node
+        return None
+
+
+def table_lookup(v, consts):
+    """(dict name, dict, key value) if v is NAME.get(key) / NAME[key] on a module-level constant dict."""
+    s = strip(v)
+    if s[0] == 'mcall' and s[2] == 'get' and s[1][0] == 'name' and isinstance(consts.get(s[1][1]), dict) and s[3]:
+        return s[1][1], consts[s[1][1]], s[3][0]
+    if s[0] == 'sub' and s[1][0] == 'name' and isinstance(consts.get(s[1][1]), dict):
+        return s[1][1], consts[s[1][1]], s[2]
     return None
